@@ -224,6 +224,27 @@ func TestVerif_C02_ReadAuth(t *testing.T) {
 		vC02Warm(t, rt, in)
 	}
 	runPass("warm")
+	// ---- phase 5 (replication-protocol slice only, LAST because it changes the case's grants): a puller answers the rev
+	// message with an ERROR, then loses all access (admin removes the user's channels and roles), then asks for the attachment
+	// of every revision on the SAME connection.  The modified grants are logged in a new Case line (ground truth = what the
+	// admin wrote) before the reads.
+	for _, in := range insts {
+		if !blipRun && in.idx >= blipAlso {
+			continue
+		}
+		for _, u := range []string{"u1", "u2"} {
+			evs := vC02BlipRevoked(t, rt, in, u)
+			if evs == nil {
+				continue
+			}
+			in.realCur = vC02RealCurrent(t, rt, in)
+			tw.Emit(vC02CaseLine(in, "revoked"))
+			for _, ev := range evs {
+				tw.Emit(ev)
+				nReads++
+			}
+		}
+	}
 	t.Logf("C02: %d cases, %d read events", len(cases), nReads)
 }
 
@@ -1059,4 +1080,133 @@ func vC02Wait(t *testing.T, wg *sync.WaitGroup, what string) {
 	case <-time.After(30 * time.Second):
 		t.Fatalf("VERIF-FATAL timeout waiting for %s", what)
 	}
+}
+
+// vC02BlipRevoked: user u pulls the case's document (protocol v3), replies to every rev message with an error, waits (bounded)
+// until the gateway has closed the attachment window of that exchange, is then stripped of every channel and role by the
+// administrator, and finally asks for the attachment of every revision on the same connection.  Returns nil when no revision
+// with an attachment was sent to u (nothing to test).  in.c.Users[u] is updated to the new grants.
+func vC02BlipRevoked(t *testing.T, rt *RestTester, in *vC02Inst, u string) []vObj {
+	bt := NewBlipTesterFromSpecWithRT(rt, &BlipTesterSpec{connectingUsername: in.pre + u})
+	defer bt.Close()
+	var mu sync.Mutex
+	var changesDone, revsDone sync.WaitGroup
+	gotBody := false
+	bt.blipContext.HandlerForProfile[db.MessageChanges] = func(rq *blip.Message) {
+		body, _ := rq.Body()
+		if string(body) == "null" {
+			changesDone.Done()
+			return
+		}
+		var batch [][]any
+		_ = json.Unmarshal(body, &batch)
+		answer := []any{}
+		for _, ch := range batch {
+			id := ""
+			if len(ch) > 1 {
+				id, _ = ch[1].(string)
+			}
+			if id == in.docID {
+				answer = append(answer, []any{})
+				revsDone.Add(1)
+			} else {
+				answer = append(answer, 0)
+			}
+		}
+		if !rq.NoReply() {
+			b, _ := json.Marshal(answer)
+			rq.Response().SetBody(b)
+		}
+	}
+	onRev := func(rq *blip.Message) {
+		defer revsDone.Done()
+		body, _ := rq.Body()
+		if rq.Profile() == db.MessageRev && bytes.Contains(body, []byte("_attachments")) {
+			mu.Lock()
+			gotBody = true
+			mu.Unlock()
+		}
+		if !rq.NoReply() {
+			rq.Response().SetError("HTTP", 500, "c02: client could not store the revision")
+		}
+	}
+	bt.blipContext.HandlerForProfile[db.MessageRev] = onRev
+	bt.blipContext.HandlerForProfile[db.MessageNoRev] = onRev
+	changesDone.Add(1)
+	sub := blip.NewRequest()
+	sub.SetProfile(db.MessageSubChanges)
+	sub.Properties[db.SubChangesContinuous] = "false"
+	sub.Properties[db.SubChangesSince] = fmt.Sprint(in.seq0)
+	bt.addCollectionProperty(sub)
+	if !bt.sender.Send(sub) {
+		t.Fatalf("VERIF-FATAL blip send subChanges failed")
+	}
+	if sub.Response().Properties[db.BlipErrorCode] != "" {
+		return nil
+	}
+	vC02Wait(t, &changesDone, "blip changes (revoked variant)")
+	vC02Wait(t, &revsDone, "blip revs (revoked variant)")
+	mu.Lock()
+	sent := gotBody
+	mu.Unlock()
+	if !sent {
+		return nil
+	}
+	ask := func(r vC02Rev) (int, []byte) {
+		rq := blip.NewRequest()
+		rq.SetProfile(db.MessageGetAttachment)
+		rq.Properties[db.GetAttachmentDigest] = in.digest[r.ID]
+		rq.Properties[db.GetAttachmentID] = in.docID
+		bt.addCollectionProperty(rq)
+		if !bt.sender.Send(rq) {
+			t.Fatalf("VERIF-FATAL blip send getAttachment failed")
+		}
+		rs := rq.Response()
+		body, _ := rs.Body()
+		st := 200
+		if rs.Properties[db.BlipErrorCode] != "" {
+			st = vC02Atoi(rs.Properties[db.BlipErrorCode], 500)
+		}
+		return st, body
+	}
+	// The gateway processes the (error) reply to the rev message in its own goroutine.  While u still HAS access, ask until
+	// the window of that exchange is observed closed - a generous liveness bound, not an ordering device: if it never closes
+	// the reads below simply record what is served.
+	deadline := time.Now().Add(3 * time.Second)
+	for closed := false; !closed && time.Now().Before(deadline); {
+		closed = true
+		for _, r := range in.c.Revs {
+			if !r.Del {
+				if st, _ := ask(r); st == 200 {
+					closed = false
+				}
+			}
+		}
+		if !closed {
+			time.Sleep(20 * time.Millisecond)
+		}
+	}
+	// the administrator takes every channel and role away from u
+	ur := rt.SendAdminRequest(http.MethodPut, "/{{.db}}/_user/"+in.pre+u, GetUserPayload(t, in.pre+u, "", "", rt.GetSingleDataStore(), []string{}, []string{}))
+	if ur.Code != 200 {
+		t.Fatalf("VERIF-FATAL revoke %s: %d %s", in.pre+u, ur.Code, ur.Body.String())
+	}
+	in.c.Users[u] = vC02User{Direct: []string{}, InRole: false}
+	evs := []vObj{}
+	for _, r := range in.c.Revs {
+		if r.Del {
+			continue
+		}
+		st, body := ask(r)
+		am := []string{}
+		for _, x := range in.c.Revs {
+			if bytes.Contains(body, []byte(in.attRaw[x.ID])) || bytes.Contains(body, []byte(in.attB64[x.ID])) {
+				am = append(am, x.ID)
+			}
+		}
+		evs = append(evs, vObj{"a": "Read", "c": in.idx, "pass": "revoked", "surf": "BlipGetAttachment",
+			"fl": vObj{"during": false, "single": true, "proto": "v3", "afterErrorReply": true, "revoked": true}, "u": u, "rev": r.ID, "st": st,
+			"mk": []string{}, "am": am, "ents": []vObj{}, "listed": false, "foreign": []string{}, "rq": "getAttachment " + in.digest[r.ID] + " after an error reply to rev and revocation"})
+	}
+	return evs
 }
